@@ -21,6 +21,14 @@ type Sub struct {
 	Y string `sod:"upper"`
 }
 
+// Grp is held BY VALUE in slices and maps of the payload, with containers of its own.
+type Grp struct {
+	Tags  []string
+	Attrs map[string]int
+	Cnt   *int
+	Inner []Sub
+}
+
 // Rec is the main collection type of the drivers.
 type Rec struct {
 	sod.Item
@@ -42,6 +50,9 @@ type Rec struct {
 	Q *int
 	I interface{}
 	B []byte
+	G []Grp
+	H map[string]Grp
+	J [][]int
 }
 
 // RecPlain has the same shape with the top-level non-unique indexes removed.
@@ -64,6 +75,9 @@ type RecPlain struct {
 	Q *int
 	I interface{}
 	B []byte
+	G []Grp
+	H map[string]Grp
+	J [][]int
 }
 
 // Other is a second collection type (wrong-type batches, multi-collection Close).
@@ -191,12 +205,13 @@ func encodeRec(r *Rec) Vals {
 // payloads ----------------------------------------------------------------
 
 // NPayloads is the number of payload shapes setPayload knows.
-const NPayloads = 12
+const NPayloads = 15
 
 func ip(i int) *int { return &i }
 
 func setPayload(r *Rec, n int) {
 	r.L, r.M, r.Q, r.I, r.B = nil, nil, nil, nil, nil
+	r.G, r.H, r.J = nil, nil, nil
 	switch n % NPayloads {
 	case 0:
 	case 1:
@@ -228,6 +243,15 @@ func setPayload(r *Rec, n int) {
 	case 11:
 		r.I = &Sub{X: 4, Y: "ptr"}
 		r.Q = ip(-1)
+	case 12:
+		r.G = []Grp{{Tags: []string{"a", "b"}, Attrs: map[string]int{"x": 1}, Cnt: ip(3), Inner: []Sub{{X: 1, Y: "i"}}}, {}}
+	case 13:
+		r.H = map[string]Grp{"g": {Tags: []string{"t"}, Attrs: map[string]int{"y": 2}, Cnt: ip(9)}, "e": {}}
+		r.J = [][]int{{1, 2}, nil, {}}
+	case 14:
+		r.G = []Grp{{Tags: []string{}, Inner: []Sub{}}}
+		r.J = [][]int{{7}}
+		r.I = []interface{}{[]interface{}{1.0, 2.0}, map[string]interface{}{"z": []interface{}{"q"}}}
 	}
 }
 
@@ -236,7 +260,7 @@ var plIDs = map[string]int{}
 // payloadID gives a small integer identifying the canonical JSON of the
 // payload fields (and P's nil-ness is a separate field, Pn).
 func payloadID(r *Rec) int {
-	b, err := json.Marshal([]interface{}{r.L, r.M, r.Q, r.I, r.B})
+	b, err := json.Marshal([]interface{}{r.L, r.M, r.Q, r.I, r.B, r.G, r.H, r.J})
 	if err != nil {
 		b = []byte("unmarshalable:" + err.Error())
 	}
